@@ -522,8 +522,10 @@ impl C12 {
         let own = ((100i64, 200i64), (103i64, 201i64));
         let parent: Option<IMap> = if pi == 0 { None } else { Some(IMap::placement(o8[pi - 1].0, o8[pi - 1].2, parent_off)) };
         for s2 in 0..16usize {
-            for order in 0..3usize {
-                let key = format!("sib:{pi}:{s1}:{s2}:{order}");
+            // instance names: all different / all empty (what GDSII import produces) / all the same
+            for order_naming in 0..9usize {
+                let (order, naming) = (order_naming % 3, order_naming / 3);
+                let key = format!("sib:{pi}:{s1}:{s2}:{order}:{naming}");
                 if !cx.enter(&key) {
                     continue;
                 }
@@ -563,7 +565,7 @@ impl C12 {
                 let leafc: Ptr<Cell> = Ptr::new(Cell::from(leaf));
                 let mid = Layout {
                     name: "mid".into(),
-                    insts: list.iter().enumerate().map(|(i, (r, a, _q, off))| Instance { inst_name: format!("s{i}"), cell: leafc.clone(), loc: rp(*off), reflect_vert: *r, angle: *a }).collect(),
+                    insts: list.iter().enumerate().map(|(i, (r, a, _q, off))| Instance { inst_name: [format!("s{i}"), String::new(), "s".to_string()][naming].clone(), cell: leafc.clone(), loc: rp(*off), reflect_vert: *r, angle: *a }).collect(),
                     elems: vec![Element { net: None, layer: lk, purpose: LayerPurpose::Drawing, inner: Shape::Rect(Rect { p0: rp(own.0), p1: rp(own.1) }) }],
                     annotations: vec![],
                 };
@@ -762,7 +764,7 @@ impl Driver for C12 {
         let d = tier.pick(3, 6);
         Describe {
             rule: format!(
-                "single placements: reflect in {{f,t}} x angle in {{None,0,90,180,270,-90,-180,-270,-360,360,450,-630,-0}} x offsets {{0,1,-7,1000,-2^31,2^31-1}}^2 x every point of the 9x9 grid (-4..4)^2 plus the four i32 corners, judged three ways (from_instance == cascade(translate, cascade(rotate, reflect_vert)) == exact integer map); chains: every word of depth 1..={d} over the 8 orientations x 3 offsets per level, as cascaded Transforms on 6 probe points and through the real Layout::flatten on a nested layout holding a rectangle, an asymmetric L polygon and a path (shape-by-shape exact images; polygon orientation flips iff odd number of reflections); general angles: every integer degree 0..359 x reflect x 2 offsets x the grid and three large points, within 0.5+1e-5 of a double-precision reference with exact octant reduction; nested general angles: parent at every integer degree x reflect over a child in each of the 8 right-angle orientations and one general angle x 3 non-zero child offsets, as cascaded Transforms and through Layout::flatten, every point within half a unit of the exact real composition (rounded once); sibling instances: (no parent / a parent in each of the 8 orientations) over a cell holding three instances of one leaf - two in every pair of the 8 orientations x 2 offsets and a plain one, listed last / first / in the middle - and an own rectangle, every flattened shape compared with the exact image under the placements on its own path only (multiset); angles next to a right angle: 90q + d for d in +-{{0.001, 0.004, 0.01, 0.05, 0.1, 0.25, 0.5, 0.75, 0.81, 1.5}} degrees and the fractional general angles 90q +- 22.5, +- 33.3, 44.999, 45.001, 67.5, -67.25 x reflect on points with coordinates up to 1e6, as from_instance, as a cascade over a plain child at (100000, 0) and through Layout::flatten, within half a unit. A state is one placement / chain word; non-trivial = not the identity orientation."
+                "single placements: reflect in {{f,t}} x angle in {{None,0,90,180,270,-90,-180,-270,-360,360,450,-630,-0}} x offsets {{0,1,-7,1000,-2^31,2^31-1}}^2 x every point of the 9x9 grid (-4..4)^2 plus the four i32 corners, judged three ways (from_instance == cascade(translate, cascade(rotate, reflect_vert)) == exact integer map); chains: every word of depth 1..={d} over the 8 orientations x 3 offsets per level, as cascaded Transforms on 6 probe points and through the real Layout::flatten on a nested layout holding a rectangle, an asymmetric L polygon and a path (shape-by-shape exact images; polygon orientation flips iff odd number of reflections); general angles: every integer degree 0..359 x reflect x 2 offsets x the grid and three large points, within 0.5+1e-5 of a double-precision reference with exact octant reduction; nested general angles: parent at every integer degree x reflect over a child in each of the 8 right-angle orientations and one general angle x 3 non-zero child offsets, as cascaded Transforms and through Layout::flatten, every point within half a unit of the exact real composition (rounded once); sibling instances: (no parent / a parent in each of the 8 orientations) over a cell holding three instances of one leaf - two in every pair of the 8 orientations x 2 offsets and a plain one, listed last / first / in the middle, the three named differently / all with an empty name / all with the same name - and an own rectangle, every flattened shape compared with the exact image under the placements on its own path only (multiset); angles next to a right angle: 90q + d for d in +-{{0.001, 0.004, 0.01, 0.05, 0.1, 0.25, 0.5, 0.75, 0.81, 1.5}} degrees and the fractional general angles 90q +- 22.5, +- 33.3, 44.999, 45.001, 67.5, -67.25 x reflect on points with coordinates up to 1e6, as from_instance, as a cascade over a plain child at (100000, 0) and through Layout::flatten, within half a unit. A state is one placement / chain word; non-trivial = not the identity orientation."
             ),
             assumptions: vec!["general angles: the half unit is the statement's tolerance; 1e-5 covers double-precision evaluation".into()],
             excluded: vec!["non-integer angles and magnification".into()],
